@@ -436,3 +436,68 @@ func ci(k *ssa.Const) int64 {
 	}
 	return v
 }
+
+// privateClosure returns f together with the unexported functions that are
+// reachable from f and called only from inside the set: the helpers a
+// refactoring may have split f into.
+func (w *World) privateClosure(f *ssa.Function) map[*ssa.Function]bool {
+	set := map[*ssa.Function]bool{f: true}
+	changed := true
+	for changed {
+		changed = false
+		for g := range w.reachable([]*ssa.Function{f}) {
+			if set[g] || (g.Object() != nil && g.Object().Exported()) {
+				continue
+			}
+			callers := w.callersOf(g)
+			if len(callers) == 0 {
+				continue
+			}
+			all := true
+			for _, c := range callers {
+				if !set[c.Parent()] {
+					all = false
+				}
+			}
+			if all {
+				set[g] = true
+				changed = true
+			}
+		}
+	}
+	return set
+}
+
+// closureFuncs returns the closure as a name-sorted slice.
+func (w *World) closureFuncs(f *ssa.Function) []*ssa.Function {
+	set := w.privateClosure(f)
+	var out []*ssa.Function
+	for _, n := range w.Names {
+		if g := w.Funcs[n]; set[g] {
+			out = append(out, g)
+		}
+	}
+	return out
+}
+
+// parserFuncs: (*Decimal).setString and the helpers it may have been split into.
+func (w *World) parserFuncs() []*ssa.Function {
+	f := w.fn("(*Decimal).setString")
+	if f == nil {
+		return nil
+	}
+	return w.closureFuncs(f)
+}
+
+// recvFieldStore: st stores into field `field` of a *Decimal parameter of f.
+func (w *World) recvFieldStore(f *ssa.Function, st *ssa.Store, field string) bool {
+	fa, ok := st.Addr.(*ssa.FieldAddr)
+	if !ok {
+		return false
+	}
+	pr, isP := fa.X.(*ssa.Parameter)
+	if !isP || !isDecimalPtr(pr.Type()) {
+		return false
+	}
+	return w.exprOf(f, st.Addr).Name == field
+}
